@@ -16,7 +16,7 @@ CHECKS = {
     note="A stale read is only visible when stale bytes reach an output, a condition or a trap; poisoning (debug assertions) and observation epilogues raise the odds."),
  "C03": dict(
     technique=PBT + "the unpruned run of the same program (differential oracle) + executed-statement log vs recomputed reachability",
-    text="Each generated program is run with and without the resolver's optimisation plan on the same AST and facts; printed values and ending must be identical, and no statement the analysis calls unreachable may execute when nothing is pruned; a program that ends when every statement is executed but does more than twice that work with the plan is reported as not stopping. Hook counters measure that the plan was non-empty and actually skipped something.",
+    text="Each generated program is run with and without the resolver's optimisation plan on the same AST and facts; printed values and ending must be identical, and no statement the analysis calls unreachable may execute when nothing is pruned; a program that ends when every statement is executed but does more than twice that work with the plan is reported as not stopping. A bounded-exhaustive family of recursion cycles (2..6 functions, one member silently reading or assigning an enclosing variable) checks the interprocedural summaries. Hook counters measure that the plan was non-empty and actually skipped something.",
     note="Runs ending in resource exhaustion are not compared; non-termination changes are out of reach."),
  "C04": dict(
     technique=PBT + "a reference interpreter with lexical environments; site-tagged literals",
@@ -32,7 +32,7 @@ CHECKS = {
     note="Only the routes and sinks in the tables of harness/src/c06.rs; process_result values need `true` to be spawnable."),
  "C08": dict(
     technique="generated recursion shapes x depth x build driven through the real naija binaries (subprocess fuzzing) with depth bisection",
-    text="Run-time recursion cycles, source-nesting shapes and run-time data nesting are generated at depths 10^2..10^6 and run through the dev and release binaries with an 8 MiB stack; the process must exit by itself with a diagnostic, never die by a signal, and a recursion without a base case must never end with exit status 0. Front-end native overflows are recorded as known findings per construct and build; any run-time-stage crash or new construct is a violation.",
+    text="Run-time recursion cycles, source-nesting shapes and run-time data nesting are generated at depths 10^2..10^6 and run through the dev and release binaries with an 8 MiB stack; the process must exit by itself with a diagnostic, never die by a signal, and a recursion without a base case must never end with exit status 0; block nesting runs in three flavours and four cycles are handed over on standard input. Front-end native overflows are recorded as known findings per construct and build; any run-time-stage crash or new construct is a violation.",
     note="Depends on the two compiler profiles built here; arena exhaustion and watchdog hits are inconclusive."),
  "C11": dict(
     technique="stateful model-based property testing (proptest op histories against a shadow model with byte patterns)",
@@ -67,7 +67,7 @@ CHECKS.update({
     note="Whitespace kinds limited to those the property names; comments never inside a multi-word keyword."),
  "C14": dict(
     technique="differential property-based testing: real binaries (3 input routes, dev+release) vs library pipeline with separate arenas; history testing through the playground entry point derived from wasm/src/lib.rs",
-    text="Generated programs (accepted, failing at run time, with warnings, statically rejected; a quarter padded beyond 8/16/24 KiB with multi-byte characters across that offset) are run through the naija binary by file, --eval and stdin (in one or several writes) and compared byte-for-byte (stdout) and by exit status with the library pipeline using fresh separate arenas. Histories of up to 8 runs over up to 4 programs are executed back to back in one process through a native build of the real playground entry point; every position must give the result the program gives alone in a fresh process.",
+    text="Generated programs (accepted, failing at run time, with warnings, statically rejected; a quarter padded beyond 8/16/24 KiB with multi-byte characters across that offset) are run through the naija binary by file, --eval, stdin (in one or several writes) and by a script path that is a pipe, with white space or comment lines around the text; a further stage uses texts with about 256 x k diagnostics; and compared byte-for-byte (stdout) and by exit status with the library pipeline using fresh separate arenas. Histories of up to 8 runs over up to 4 programs are executed back to back in one process through a native build of the real playground entry point; every position must give the result the program gives alone in a fresh process.",
     note="The playground entry is derived at build time from wasm/src/lib.rs (wasm attributes stripped, HTML conversion = identity); if the derivation no longer applies the check exits 2."),
  "C15": dict(
     technique="property-based testing of generated builder scripts x host policies against an independent contract model; reporting helper child as spawn marker",
